@@ -385,7 +385,7 @@ Qed.
 
 Lemma inv0_step c s o : Inv0 c s -> Inv0 c (fst (step c s o)).
 Proof.
-  intro H. destruct o as [ws|keys st jq jis| | | |d]; simpl.
+  intro H. destruct o as [ws|keys st jq jis|k ws st j| | | |d]; simpl.
   - (* Write *)
     destruct H as [H1 H2 H3 H4 H5]. constructor; simpl.
     + intros ch Hin. apply in_app_or in Hin as [Hin|Hin].
@@ -408,6 +408,22 @@ Proof.
     destruct (if trig then spawn s else (s, false)) as [s1 spawned] eqn:E1. simpl in Hs1.
     destruct (Hsame s1 eq_refl) as [A [B [C D]]]. cbn [fst].
     rewrite <- A, <- B, <- C, <- D. apply inv0_caches. exact Hs1.
+  - (* RaceRead: for Inv0 it is a write followed by a tick *)
+    assert (H2 : Inv0 c (mkSt (s_now s + c_wtick c + c_wtick c) (s_db s ++ map (mkCh (s_now s + c_wtick c)) ws)
+                         (s_ic s) (s_qc s) (s_cl s) (s_mk s) (s_run s) (s_done s))).
+    { destruct H as [H1 H2 H3 H4 H5]. constructor; simpl.
+      + intros ch Hin. apply in_app_or in Hin as [Hin|Hin].
+        * apply H1 in Hin. lia.
+        * apply in_map_iff in Hin as [x [<- _]]. simpl. lia.
+      + apply sorted_app_new; [exact H2|]. intros ch Hin. apply H1 in Hin. lia.
+      + intros m e He. destruct (H3 m e He) as [A B]. split; [lia | exact B].
+      + intros e He. destruct (H4 e He) as [A [B [ch [C [D E]]]]]. repeat split; try lia; try assumption.
+        exists ch. repeat split; try assumption. apply in_or_app; left; exact C.
+      + intros r R. destruct (H5 r R) as [A [rest B]]. split; [exact A|].
+        exists (rest ++ map (mkCh (s_now s + c_wtick c)) ws). rewrite B. rewrite app_assoc. reflexivity. }
+    match goal with |- context [match ?u with Some _ => _ | None => _ end] => destruct u as [e|] end; simpl.
+    + exact H2.
+    + exact (inv0_caches c _ _ _ _ H2).
   - (* InvStart *)
     destruct (spawn s) as [s1 b] eqn:E. simpl. change s1 with (fst (s1, b)). rewrite <- E. apply inv0_spawn; exact H.
   - (* InvRead *)
@@ -626,7 +642,8 @@ Record Inv1 (c : cfg) (s : state) : Prop := {
   i1_done : (s_done s <= length (s_db s))%nat;
   i1_ic : forall k e, iget k (s_ic s) = Some e ->
           ie_lm e <= s_now s /\ ie_exp e = ie_lm e + c_ittl c /\
-          forall j ch, nth_error (s_db s) j = Some ch -> (ie_snap e <= j)%nat -> ie_lm e < ch_ts ch;
+          (forall j ch, nth_error (s_db s) j = Some ch -> (ie_snap e <= j)%nat -> ie_lm e <= ch_ts ch) /\
+          ((ie_snap e < length (s_db s))%nat -> ie_lm e < s_now s);
   i1_qc : forall id e, qget id (s_qc s) = Some e ->
           qe_lm e <= s_now s /\ qe_exp e = qe_lm e + c_qttl c /\
           (c_ion c = false -> forall k n, In (k, n) (qe_src e) ->
@@ -662,7 +679,7 @@ Qed.
 Lemma inv1_tick c s d : Inv1 c s -> Inv1 c (fst (step c s (Tick d))).
 Proof.
   intros [P D IC QC CA RU J I Q]. constructor; simpl; try assumption.
-  - intros k e He. destruct (IC k e He) as [A [B C]]. repeat split; try assumption. lia.
+  - intros k e He. destruct (IC k e He) as [A [B [C S]]]. split; [lia|]. split; [exact B|]. split; [exact C|]. intro X. specialize (S X). lia.
   - intros ks e He. destruct (QC ks e He) as [A [B C]]. repeat split; try assumption. lia.
   - intros x Hx. unfold cached_of in *. simpl in Hx. apply CA in Hx. lia.
   - intros i ch k e Hi Hn He Ht Hs Hl. apply (I i ch k e); try assumption. lia.
@@ -677,7 +694,7 @@ Proof.
   constructor; simpl.
   - intros ch Hin. apply in_app_or in Hin as [Hin|Hin]; [apply P; exact Hin|]. rewrite (Hnew ch Hin). lia.
   - rewrite app_length. lia.
-  - intros k e He. destruct (IC k e He) as [A [B C]]. repeat split; try assumption; [lia|].
+  - intros k e He. destruct (IC k e He) as [A [B [C S]]]. split; [lia|]. split; [exact B|]. split; [|intros _; lia].
     intros j ch Hn Hj. apply nth_app_cases in Hn as [[_ Hn]|[_ Hin]]; [apply (C j); assumption|].
     rewrite (Hnew ch Hin). lia.
   - intros ks e He. destruct (QC ks e He) as [A [B C]]. repeat split; try assumption; [lia|].
@@ -742,10 +759,15 @@ Proof.
     apply (J i ch Hn). right. exists x. split; [unfold cached_of; rewrite R; reflexivity | exact Hle].
 Qed.
 
-Lemma inv1_caches c s ic' qc' :
+Definition new_ient (c : cfg) (s : state) (e : ient) : Prop :=
+  ie_lm e <= s_now s /\ ie_exp e = ie_lm e + c_ittl c /\
+  (forall j ch, nth_error (s_db s) j = Some ch -> (ie_snap e <= j)%nat -> ie_lm e <= ch_ts ch) /\
+  ((ie_snap e < length (s_db s))%nat -> ie_lm e < s_now s) /\
+  (s_done s <= ie_snap e)%nat.
+
+Lemma inv1_caches_gen c s ic' qc' :
   cfg_facts c -> Inv1 c s ->
-  (forall k e, iget k ic' = Some e ->
-     iget k (s_ic s) = Some e \/ exists j, e = fresh_ent c (s_now s) (length (s_db s)) j) ->
+  (forall k e, iget k ic' = Some e -> iget k (s_ic s) = Some e \/ new_ient c s e) ->
   (forall id e, qget id qc' = Some e ->
      qget id (s_qc s) = Some e \/
      (exists jq, qe_lm e = s_now s /\ qe_exp e = s_now s + c_qttl c + jext (c_qttl c) (c_jit c) jq) /\
@@ -756,17 +778,36 @@ Lemma inv1_caches c s ic' qc' :
 Proof.
   intros F [P D IC QC CA RU J I Q] Hic Hqc. pose proof (cf_jit c F) as Jit.
   constructor; simpl; try assumption.
-  - intros k e He. apply Hic in He as [He|[j ->]]; [apply (IC k e He)|].
-    unfold fresh_ent; simpl. rewrite Jit, jext_zero. repeat split; try lia.
-    intros j0 ch Hn Hj. assert (nth_error (s_db s) j0 = None) by (apply nth_error_None; exact Hj). congruence.
+  - intros k e He. apply Hic in He as [He|[A [B [C [S _]]]]]; [apply (IC k e He)|]. repeat split; assumption.
   - intros id e He. apply Hqc in He as [He|[[jq [A B]] C]]; [apply (QC id e He)|].
     rewrite Jit, jext_zero in B. repeat split; try lia.
     intros Ion k n Hin j ch Hn Hj Ht. exfalso. apply (C Ion k n Hin j ch Hn Hj Ht).
-  - intros i ch k e Hi Hn He Ht Hs Hl. apply Hic in He as [He|[j ->]]; [apply (I i ch k e); assumption|].
-    simpl in Hs. lia.
+  - intros i ch k e Hi Hn He Ht Hs Hl. apply Hic in He as [He|[_ [_ [_ [_ X]]]]]; [apply (I i ch k e); assumption|]. lia.
   - intros Ion i ch id e k n Hi Hn He Hin Ht Hs Hl. apply Hqc in He as [He|[_ C]].
     + apply (Q Ion i ch id e k n); assumption.
     + exfalso. apply (C Ion k n Hin i ch Hn Hs Ht).
+Qed.
+
+Lemma fresh_ent_new c s j : cfg_facts c -> Inv1 c s -> new_ient c s (fresh_ent c (s_now s) (length (s_db s)) j).
+Proof.
+  intros F I1. unfold new_ient, fresh_ent; simpl. rewrite (cf_jit c F), jext_zero.
+  split; [lia|]. split; [lia|]. split; [|split; [lia | apply (i1_done c s I1)]].
+  intros j0 ch Hn Hj. assert (nth_error (s_db s) j0 = None) by (apply nth_error_None; exact Hj). congruence.
+Qed.
+
+Lemma inv1_caches c s ic' qc' :
+  cfg_facts c -> Inv1 c s ->
+  (forall k e, iget k ic' = Some e ->
+     iget k (s_ic s) = Some e \/ exists j, e = fresh_ent c (s_now s) (length (s_db s)) j) ->
+  (forall id e, qget id qc' = Some e ->
+     qget id (s_qc s) = Some e \/
+     (exists jq, qe_lm e = s_now s /\ qe_exp e = s_now s + c_qttl c + jext (c_qttl c) (c_jit c) jq) /\
+     (c_ion c = false -> forall k n, In (k, n) (qe_src e) ->
+        forall j ch, nth_error (s_db s) j = Some ch -> (n <= j)%nat -> touches (ch_tup ch) k = true -> False)) ->
+  Inv1 c (mkSt (s_now s) (s_db s) ic' qc' (s_cl s) (s_mk s) (s_run s) (s_done s)).
+Proof.
+  intros F I1 Hic Hqc. apply inv1_caches_gen; try assumption.
+  intros k e He. apply Hic in He as [He|[j ->]]; [left; exact He | right; apply fresh_ent_new; assumption].
 Qed.
 
 (* a usable query entry cannot miss a change that a completed run has covered *)
@@ -1034,9 +1075,10 @@ Proof.
       apply (i1_Ic c s I1 i ch k e Hi' Hn He Ht Hs Hl).
     + assert (Hent : forall i ch k e, (i < Nat.max (s_done s) (length (r_seen r)))%nat ->
                 nth_error (s_db s) i = Some ch -> iget k (s_ic s) = Some e -> (ie_snap e <= i)%nat ->
-                ie_exp e = ie_lm e + c_ittl c /\ ie_lm e < ch_ts ch /\ ch_ts ch <= s_now s).
-      { intros i ch k e Hi Hn He Hs. destruct (i1_ic c s I1 k e He) as [_ [B C]].
-        repeat split; [exact B | apply (C i ch Hn Hs) | apply (i0_ts c s I0); eapply nth_error_In; exact Hn]. }
+                ie_exp e = ie_lm e + c_ittl c /\ (ie_lm e <= ch_ts ch /\ ie_lm e < s_now s) /\ ch_ts ch <= s_now s).
+      { intros i ch k e Hi Hn He Hs. destruct (i1_ic c s I1 k e He) as [_ [B [C S]]].
+        split; [exact B|]. split; [split; [apply (C i ch Hn Hs)|]|apply (i0_ts c s I0); eapply nth_error_In; exact Hn].
+        apply S. assert ((i < length (s_db s))%nat) by (apply nth_error_Some; congruence). lia. }
       destruct (Nat.eqb (length (drop_old c (s_now s) (rev (newest :: page')))) (length (rev (newest :: page')))) eqn:Full.
       * (* full invalidation *)
         simpl. apply inv1_finish_frame; try assumption.
@@ -1066,14 +1108,41 @@ Proof.
            ++ simpl. lia.
 Qed.
 
+Lemma inv1_race c s k ws st j :
+  cfg_facts c -> Inv0 c s -> Inv1 c s -> Inv1 c (fst (step c s (RaceRead k ws st j))).
+Proof.
+  intros F I0 I1. pose proof (cf_wtick c F) as W.
+  set (sW := fst (step c s (Write ws))).
+  set (sT := fst (step c sW (Tick (c_wtick c)))).
+  assert (IT : Inv1 c sT) by (apply inv1_tick; apply inv1_write; assumption).
+  set (t := s_now s + c_wtick c).
+  assert (Hold : forall ic', (forall k0 e0, iget k0 ic' = Some e0 -> iget k0 (s_ic s) = Some e0 \/ new_ient c sT e0) ->
+            Inv1 c (mkSt (t + c_wtick c) (s_db s ++ map (mkCh t) ws) ic' (s_qc s) (s_cl s) (s_mk s) (s_run s) (s_done s))).
+  { intros ic' Hic. apply (inv1_caches_gen c sT ic' (s_qc s) F IT); [exact Hic|]. intros id e He. left. exact He. }
+  simpl.
+  match goal with |- context [match ?u with Some _ => _ | None => _ end] => destruct u as [e|] end; cbn [fst].
+  - apply Hold. intros k0 e0 He. left. exact He.
+  - destruct (c_ion c); [|apply Hold; intros k0 e0 He; left; exact He].
+    destruct (st && negb (invalid_at (s_mk s) (s_now s + c_wtick c) (s_now s + c_wtick c) k)).
+    + apply Hold. intros k0 e0 He. unfold iget in He.
+      apply (aget_aset_cases ikey_eqb ikey_eqb_spec) in He as [[-> ->]|[_ He]]; [|left; exact He].
+      right. unfold new_ient; simpl. rewrite (cf_jit c F), jext_zero. fold t.
+      split; [lia|]. split; [lia|]. split; [|split; [intros _; lia | apply (i1_done c s I1)]].
+      intros j0 ch Hn Hj. apply nth_app_cases in Hn as [[Hlt _]|[_ Hin]]; [lia|].
+      apply in_map_iff in Hin as [x [<- _]]. simpl. lia.
+    + apply Hold. intros k0 e0 He. unfold iget in He.
+      apply (aget_adel_some ikey_eqb ikey_eqb_spec) in He as [_ He]. left; exact He.
+Qed.
+
 Definition op_ok (c : cfg) (s : state) (o : op) : bool :=
   match o with Request f _ _ _ => req_ok c s f | _ => true end.
 
 Lemma inv1_step c s o : cfg_facts c -> Inv0 c s -> Inv1 c s -> op_ok c s o = true -> Inv1 c (fst (step c s o)).
 Proof.
-  intros F I0 I1 Hop. destruct o as [ws|f st jq jis| | | |d].
+  intros F I0 I1 Hop. destruct o as [ws|f st jq jis|k ws st j| | | |d].
   - apply inv1_write; assumption.
   - apply inv1_request; assumption.
+  - apply inv1_race; assumption.
   - simpl. destruct (spawn s) as [s1 b] eqn:E. simpl. change s1 with (fst (s1, b)). rewrite <- E.
     apply inv1_spawn; assumption.
   - apply inv1_read; assumption.
@@ -1189,10 +1258,12 @@ Qed.
 Lemma step_db_done c s o :
   (exists rest, s_db (fst (step c s o)) = s_db s ++ rest) /\ (s_done s <= s_done (fst (step c s o)))%nat.
 Proof.
-  destruct o as [ws|f st jq jis| | | |d].
+  destruct o as [ws|f st jq jis|k ws st j| | | |d].
   - simpl. split; [eexists; reflexivity | lia].
   - destruct (request_fields c s f st jq jis) as [A [B _]]. rewrite A, B.
     split; [exists []; rewrite app_nil_r; reflexivity | lia].
+  - simpl. match goal with |- context [match ?u with Some _ => _ | None => _ end] => destruct u as [e|] end;
+      simpl; (split; [eexists; reflexivity | lia]).
   - simpl. destruct (spawn s) as [s1 b] eqn:E. simpl.
     destruct (spawn_same s) as [_ [B [_ [_ [_ [_ D]]]]]]. rewrite E in B, D. simpl in B, D. rewrite B, D.
     split; [exists []; rewrite app_nil_r; reflexivity | lia].
@@ -1217,9 +1288,11 @@ Lemma step_keeps_read c s o r :
   s_run s = Some (RRead r) -> (match o with InvFinish => false | _ => true end) = true ->
   s_run (fst (step c s o)) = Some (RRead r).
 Proof.
-  intros R Ho. destruct o as [ws|f st jq jis| | | |d]; try discriminate.
+  intros R Ho. destruct o as [ws|f st jq jis|k ws st j| | | |d]; try discriminate.
   - simpl. exact R.
   - destruct (request_fields c s f st jq jis) as [_ [_ [A|[A _]]]]; [rewrite A; exact R | congruence].
+  - simpl. match goal with |- context [match ?u with Some _ => _ | None => _ end] => destruct u as [e|] end;
+      simpl; exact R.
   - simpl. destruct (spawn s) as [s1 b] eqn:E. simpl.
     destruct (spawn_run_cases s) as [A|[A _]]; [rewrite E in A; simpl in A; rewrite A; exact R | congruence].
   - simpl. rewrite R. simpl. exact R.
@@ -1337,7 +1410,7 @@ Qed.
 Lemma controller_only_invalidates_step c s o :
   0 < c_qttl c -> Inv0 c s -> controller_op o = true -> more_invalid c s (fst (step c s o)).
 Proof.
-  intros Q I0 Ho. destruct o as [ws|keys st jq jis| | | |d]; try discriminate; simpl.
+  intros Q I0 Ho. destruct o as [ws|keys st jq jis|k ws st j| | | |d]; try discriminate; simpl.
   - destruct (spawn_cases s) as [E|[_ [x [E _]]]]; rewrite E; simpl; [apply more_invalid_refl | apply more_invalid_set_run].
   - destruct (s_run s) as [[x|r]|]; simpl; try apply more_invalid_refl. apply more_invalid_set_run.
   - destruct (s_run s) as [[x|r]|] eqn:R; simpl; try apply more_invalid_refl.
